@@ -22,7 +22,7 @@ TIERS = {
     # through the spaces it admits, so that every space is used).
     'quick': dict(shards=8, Ns=[10], W=3, M=3, per_config=3, timeout_s=600),
     'thorough': dict(shards=16, Ns=[6, 12, 24], W=3, M=4, per_config=8,
-                     timeout_s=3000, case_timeout_s=900),
+                     timeout_s=5400, case_timeout_s=900),
 }
 LEVEL = 'fault_enumeration'
 EXHAUSTIVE = {'quick': False, 'thorough': False}
